@@ -23,7 +23,7 @@ func checkCli(c Case) error {
 	case "graft":
 		tips := c.Tree.TipNodes()
 		tip := tips[c.Sel%len(tips)].Name
-		return cli.Differential([]string{"graft", "-c", "graft.nw", "-l", tip}, text, map[string]string{"graft.nw": ref.Write(c.Other) + "\n"}, func() (string, error) {
+		return cli.DifferentialOut([]string{"graft", "-c", "graft.nw", "-l", tip}, text, map[string]string{"graft.nw": ref.Write(c.Other) + "\n"}, c15out(c), func() (string, error) {
 			t, err := load(c.Tree, false)
 			if err != nil {
 				return "", err
@@ -41,7 +41,7 @@ func checkCli(c Case) error {
 			return t.Newick() + "\n", nil
 		})
 	case "merge":
-		return cli.Differential([]string{"merge", "-i", "a.nw", "-c", "b.nw"}, "", map[string]string{"a.nw": text, "b.nw": ref.Write(c.Other) + "\n"}, func() (string, error) {
+		return cli.DifferentialOut([]string{"merge", "-i", "a.nw", "-c", "b.nw"}, "", map[string]string{"a.nw": text, "b.nw": ref.Write(c.Other) + "\n"}, c15out(c), func() (string, error) {
 			a, err := load(c.Tree, false)
 			if err != nil {
 				return "", err
@@ -66,7 +66,7 @@ func checkCli(c Case) error {
 		for _, grp := range c.Groups {
 			g.WriteString(strings.Join(grp, ",") + "\n")
 		}
-		return cli.Differential([]string{"repopulate", "-g", "groups.txt"}, text, map[string]string{"groups.txt": g.String()}, func() (string, error) {
+		return cli.DifferentialOut([]string{"repopulate", "-g", "groups.txt"}, text, map[string]string{"groups.txt": g.String()}, c15out(c), func() (string, error) {
 			t, err := load(c.Tree, false)
 			if err != nil {
 				return "", err
@@ -89,7 +89,7 @@ func checkCli(c Case) error {
 		for _, m := range stream {
 			in += ref.Write(m) + "\n"
 		}
-		return cli.Differential([]string{"collapse", "single"}, in, nil, func() (string, error) {
+		return cli.DifferentialOut([]string{"collapse", "single"}, in, nil, c15out(c), func() (string, error) {
 			out := ""
 			for _, m := range stream {
 				t, err := load(m, false)
@@ -113,7 +113,7 @@ func checkCli(c Case) error {
 			return nil
 		}
 		name := named[c.Sel%len(named)].Name
-		return cli.Differential([]string{"subtree", "-n", "^" + name + "$"}, text, nil, func() (string, error) {
+		return cli.DifferentialOut([]string{"subtree", "-n", "^" + name + "$"}, text, nil, c15out(c), func() (string, error) {
 			t, err := load(c.Tree, false)
 			if err != nil {
 				return "", err
@@ -155,3 +155,11 @@ func TestC15Cli(t *testing.T) {
 }
 
 var _ = gt.Parse
+
+// c15out: a third of the cases write the result with -o file instead of stdout (drawn with the case: Sel).
+func c15out(c Case) string {
+	if c.Sel%3 == 0 {
+		return "-o"
+	}
+	return ""
+}
